@@ -147,16 +147,98 @@ def _fn_values(model, mod, e):
 def _callees(model, mod, fn, call):
     """All (Module, FunctionDef) a call in ``fn`` may reach: `_callee`, or - for a call through a single-assignment local such as
     ``parse = dtls_parse_client_hello if self.is_dtls else parse_client_hello`` - the functions that local may hold."""
+    f = call.func
+    a = fn.args
+    params = {x.arg for x in a.posonlyargs + a.args + a.kwonlyargs}
+    if isinstance(f, ast.Name) and f.id in params:
+        # a function handed in as an argument (`_parse_or_defer(parse_client_hello, data)`, `_record_contents(.., starts_like_tls_record)`)
+        return _param_fn_values(model, mod, fn, f.id) if not _defs(fn).get(f.id) else []
     r = _callee(model, mod, _class_of(fn), call)
     if r is not None:
         return [r]
-    f = call.func
-    a = fn.args
-    if isinstance(f, ast.Name) and f.id not in {x.arg for x in a.posonlyargs + a.args + a.kwonlyargs}:
+    if isinstance(f, ast.Name):
         ds = _defs(fn).get(f.id, [])
         if len(ds) == 1 and ds[0][0] == "assign":
-            return _fn_values(model, mod, ds[0][1].value)
-    return []
+            return _local_fn_values(model, mod, fn, ds[0][1].value) or _table_fn_values(model, mod, fn, ds[0][1].value)
+    return _table_fn_values(model, mod, fn, f)
+
+
+def _table_fn_values(model, mod, fn, e):
+    """The functions `TABLE[key]` / `TABLE.get(key)` may denote, TABLE being a module-level dict display (assigned once) whose values are all
+    repository functions: every one of them (the key is not evaluated)."""
+    t = None
+    if isinstance(e, ast.Subscript) and isinstance(e.value, ast.Name):
+        t = e.value.id
+    elif isinstance(e, ast.Call) and isinstance(e.func, ast.Attribute) and e.func.attr == "get" and isinstance(e.func.value, ast.Name) and len(e.args) == 1 and not e.keywords:
+        t = e.func.value.id
+    a = fn.args
+    if t is None or t in _defs(fn) or t in {x.arg for x in a.posonlyargs + a.args + a.kwonlyargs}:
+        return []
+    vals = mod.assigns(t)
+    if len(vals) != 1 or not isinstance(vals[0], ast.Dict) or not vals[0].values or any(k is None for k in vals[0].keys):
+        return []
+    out = []
+    for v in vals[0].values:
+        rs = _fn_values(model, mod, v)
+        if not rs:
+            return []
+        out += [r for r in rs if all(r[1] is not x[1] for x in out)]
+    return out
+
+
+def _local_fn_values(model, mod, fn, e, depth=0):
+    """`_fn_values` for an expression inside ``fn``: a never-rebound parameter of ``fn`` stands for what its callers pass."""
+    if isinstance(e, ast.IfExp):
+        a, b = _local_fn_values(model, mod, fn, e.body, depth), _local_fn_values(model, mod, fn, e.orelse, depth)
+        return a + b if a and b else []
+    a = fn.args
+    if isinstance(e, ast.Name) and e.id in {x.arg for x in a.posonlyargs + a.args + a.kwonlyargs}:
+        return _param_fn_values(model, mod, fn, e.id, depth) if not _defs(fn).get(e.id) else []
+    if isinstance(e, ast.Name) and e.id in _defs(fn):
+        ds = _defs(fn)[e.id]
+        if len(ds) == 1 and ds[0][0] == "assign" and depth < 3:
+            return _local_fn_values(model, mod, fn, ds[0][1].value, depth + 1)
+        return []
+    return _fn_values(model, mod, e)
+
+
+def _param_fn_values(model, mod, fn, pname, depth=0):
+    """The repository functions parameter ``pname`` of ``fn`` may hold: what every call site of ``fn`` in the package passes for it (a
+    function name, a conditional expression of such, the caller's own function-valued parameter / local, the default value).
+    [] when some use of ``fn`` is not a plain call or some argument is not such an expression (then the call stays unresolved)."""
+    if depth > 3:
+        return []
+    cache = fn.__dict__.setdefault("_c13_param_fns", {})
+    if pname in cache:
+        return cache[pname]
+    cache[pname] = []  # cycles
+    a = fn.args
+    pos = [x.arg for x in a.posonlyargs + a.args]
+    defaults = dict(zip(pos[len(pos) - len(a.defaults):], a.defaults))
+    defaults.update({k.arg: d for k, d in zip(a.kwonlyargs, a.kw_defaults) if d is not None})
+    out, ok = [], True
+    sites = _call_sites(model, mod, fn)
+    for cmod, cfn, call, skip in sites:
+        names = pos[1:] if skip else pos
+        arg = None
+        if pname in names and names.index(pname) < len(call.args) and not any(isinstance(x, ast.Starred) for x in call.args):
+            arg = call.args[names.index(pname)]
+        for kw in call.keywords:
+            if kw.arg == pname:
+                arg = kw.value
+            elif kw.arg is None:
+                ok = False
+        vals = None
+        if arg is not None:
+            vals = _local_fn_values(model, cmod, cfn, arg, depth + 1)
+        elif pname in defaults:
+            vals = _fn_values(model, mod, defaults[pname])
+        if not vals:
+            ok = False
+            break
+        out += [r for r in vals if all(r[1] is not x[1] for x in out)]
+    cache[pname] = out if ok and sites else []
+    return cache[pname]
 
 
 def _is_parser(r) -> bool:
@@ -540,6 +622,8 @@ class Prover:
                 return v is not None and v >= 0
             if e.id in seen:
                 return True  # induction: every binding keeps the invariant, given that it holds before
+            if e.id in self.params and e.id not in self.defs:
+                return self.param_nonneg(e.id)  # `header_size`: 5 / 13 at every call site
             if e.id in self.params or e.id not in self.defs:
                 return False
             seen = seen | {e.id}
@@ -557,6 +641,39 @@ class Prover:
                 return False
             return True
         return False
+
+    def param_nonneg(self, pname) -> bool:
+        """The never-rebound parameter ``pname`` is a non-negative integer at every call site of the function (its default where no argument is given)."""
+        if self.depth >= 2:
+            return False
+        cache = self.fn.__dict__.setdefault("_c13_param_nonneg", {})
+        if pname in cache:
+            return cache[pname]
+        cache[pname] = False  # cycles
+        a = self.fn.args
+        pos = [x.arg for x in a.posonlyargs + a.args]
+        defaults = dict(zip(pos[len(pos) - len(a.defaults):], a.defaults))
+        defaults.update({k.arg: d for k, d in zip(a.kwonlyargs, a.kw_defaults) if d is not None})
+        sites = _call_sites(self.model, self.mod, self.fn)
+        ok = bool(sites)
+        for cmod, cfn, call, skip in sites:
+            names = pos[1:] if skip else pos
+            arg = None
+            if pname in names and names.index(pname) < len(call.args) and not any(isinstance(x, ast.Starred) for x in call.args):
+                arg = call.args[names.index(pname)]
+            for kw in call.keywords:
+                if kw.arg == pname:
+                    arg = kw.value
+                elif kw.arg is None:
+                    ok = False
+            if arg is not None:
+                ok = ok and Prover(self.model, cmod, cfn, self.depth + 1).nonneg(arg, set())
+            else:
+                ok = ok and pname in defaults and _const_int(defaults[pname]) is not None and _const_int(defaults[pname]) >= 0
+            if not ok:
+                break
+        cache[pname] = ok
+        return ok
 
     def via_callers(self, lin) -> bool:
         """``lin`` mentions only never-rebound parameters (as integers) and their lengths: prove it, translated to the arguments, at every call
@@ -636,6 +753,9 @@ def _call_sites(model, mod, fn):
         if isinstance(n.value, ast.Name) and n.value.id in ("self", "cls") and caller is not None and _class_of(caller) is not None:
             r = model.method(m.rel, _class_of(caller)._qual, fn.name)
             return r is not None and r[1] is fn
+        r = model.resolve_name(m, n) if attr_chain(n) else None  # `NextLayer._helper(..)`: the class named explicitly
+        if r is not None and isinstance(r[1], (ast.FunctionDef, ast.AsyncFunctionDef, ast.ClassDef)):
+            return r[1] is fn
         return None  # a method reached through some other receiver: unknown
 
     out, ok = [], True
@@ -651,7 +771,10 @@ def _call_sites(model, mod, fn):
             if ref is None or caller is None or not (isinstance(p, ast.Call) and p.func is n):
                 ok = False
                 continue
-            out.append((m, caller, p, cls is not None and isinstance(n, ast.Attribute)))
+            static = any(norm(d) == "staticmethod" for d in fn.decorator_list)
+            via_class = isinstance(n, ast.Attribute) and not (isinstance(n.value, ast.Name) and n.value.id in ("self", "cls"))
+            unbound = via_class and not any(norm(d) == "classmethod" for d in fn.decorator_list)  # Class.method(obj, ..): the receiver is an explicit argument
+            out.append((m, caller, p, cls is not None and isinstance(n, ast.Attribute) and not static and not unbound))
     if not ok:
         out = []
     fn._c13_sites = out
@@ -851,14 +974,26 @@ def _valid_host_decodes_idna_first(model) -> bool:
     return False
 
 
-def _dynamic(fr, call):
-    """Calls through a function-valued local (`parse = a if c else b; parse(buf)`): all functions the local may hold."""
-    f = call.func
-    if isinstance(f, ast.Name) and fr._is_local(f.id):
-        rs = _callees(fr.eng.model, fr.mod, fr.fn, call)
-        if rs:
-            return [(m.rel, fn._qual) for m, fn in rs]
-    return None
+def _make_dynamic(ctx):
+    g = _graph(ctx)
+
+    def dynamic(fr, call):
+        """Calls through a function-valued local or parameter (`parse = a if c else b; parse(buf)`, `def helper(parser, data): parser(data)`):
+        all functions the name may hold.  When the name holds ClientHello parsers of this property, other values it may hold at other
+        call sites of the helper (the QUIC parser) are left out: their totality is not part of C13 (see NOT decided)."""
+        f = call.func
+        if isinstance(f, ast.Name) and fr._is_local(f.id):
+            rs = _callees(fr.eng.model, fr.mod, fr.fn, call)
+            if rs:
+                ours = [r for r in rs if g.reached(r[0], r[1])]
+                if ours and len(ours) != len(rs):
+                    ctx.assume(f"{fr.mod.rel}::{fr.fn._qual} `{norm(call)[:60]}`: of the functions `{f.id}` may hold, only those reaching {list(PARSERS)} are analysed "
+                               f"(left out: {sorted(r[1]._qual for r in rs if r not in ours)})")
+                    rs = ours
+                return [(m.rel, fn._qual) for m, fn in rs]
+        return None
+
+    return dynamic
 
 
 def _make_discharge(ctx):
@@ -1064,7 +1199,7 @@ def _r13_1(ctx):
         for s in sites:
             n_sites += 1
             srel, squal, t = s["rel"], s["qual"], s["node"]
-            mr = MayRaise(ctx, Config(externals=KAITAI, discharge=_make_discharge(ctx), taint_through_mutation=True, dynamic=_dynamic))
+            mr = MayRaise(ctx, Config(externals=KAITAI, discharge=_make_discharge(ctx), taint_through_mutation=True, yield_from_delegates=True, dynamic=_make_dynamic(ctx)))
             esc = mr.region(srel, squal, s["region"], s["env"])
             key = mr.key_of_region(srel, squal, s["env"])
             ctx.require(mr.sites >= 20 * len(s["hit"]) and {"ValueError"} <= {e.exc for e in esc} and any(f.startswith(K1) or f.startswith(K2) for f in mr.functions),
@@ -1087,7 +1222,7 @@ def _r13_1(ctx):
     # properties read outside any handler
     for prop in HELLO_PROPS:
         ctx.func(T, f"ClientHello.{prop}")
-        mr = MayRaise(ctx, Config(externals=KAITAI, discharge=_make_discharge(ctx), attr_on_any=False, taint_through_mutation=True))
+        mr = MayRaise(ctx, Config(externals=KAITAI, discharge=_make_discharge(ctx), attr_on_any=False, taint_through_mutation=True, yield_from_delegates=True))
         s = mr.function(T, f"ClientHello.{prop}", {"self._client_hello": "V"})
         key = (T, f"ClientHello.{prop}", (("self._client_hello", "V"),))
         for typ in sorted({e.exc for e in s.escapes}):
@@ -1274,8 +1409,9 @@ def _r13_2(ctx):
     names = _hello_names(ctx, [(mod, f) for f in fns])
     data_params = _bytes_params(rh)
 
-    parser_locals = {n.func.id for fn in fns for n in _own_nodes(fn) if isinstance(n, ast.Call) and isinstance(n.func, ast.Name) and n.func.id not in PARSERS
-                     and any(_is_parser(r) for r in _callees(model, mod, fn, n))}
+    # the callee expressions (as written: the path engine labels a call by that text) through which a parser is called directly - its name, a
+    # function-valued local / parameter, `TABLE[key]`
+    parser_locals = {ast.unparse(n.func) for fn in fns for n in _own_nodes(fn) if isinstance(n, ast.Call) and any(_is_parser(r) for r in _callees(model, mod, fn, n))}
 
     def is_parse(ev):
         return ev[0] == "call" and (ev[1].split(".")[-1] in PARSERS or ev[1] in parser_locals)
